@@ -9,7 +9,7 @@ export GOFLAGS=-mod=mod GOPROXY=off GOSUMDB=off GOTOOLCHAIN=local
 ID=$1; shift
 NAME=${SEEDED_NAME:-$ID}
 CHECKS=${@:-$ID}
-W=/tmp/mut/$ID; O=/tmp/mut/$ID-out; D=/verif/seeded/$NAME
+W=${MUT_W:-/tmp/mut/$ID}; O=${MUT_O:-/tmp/mut/$ID-out}; D=/verif/seeded/$NAME
 mkdir -p $D
 cp $O/patch.diff $D/patch.diff 2>/dev/null || git -C $W diff > $D/patch.diff
 rm -rf $D/demo; cp -r $O/demo $D/demo 2>/dev/null
@@ -22,8 +22,8 @@ res() { echo "$1" | tee -a $D/confirm.log; }
 if [ -f $O/demo/go.mod ]; then
   ( cd $O/demo && (go test -count=1 ./... 2>&1 || true; ls *.go >/dev/null 2>&1) ) > $D/demo_with.log 2>&1
   ( cd $O/demo && if ls *_test.go >/dev/null 2>&1; then go test -count=1 ./...; else go run .; fi ) >> $D/demo_with.log 2>&1 && res "demo with change: PASSES (unexpected)" || res "demo with change: fails (expected)"
-  T=$(mktemp -d /root/scratch/demoXXXX); cp -r $O/demo/. $T/; sed -i "s#=> $W#=> /repo#" $T/go.mod; cp /repo/go.sum $T/go.sum 2>/dev/null
-  ( cd $T && if ls *_test.go >/dev/null 2>&1; then go test -count=1 ./...; else go run .; fi ) > $D/demo_without.log 2>&1 && res "demo on unchanged /repo: passes (expected)" || res "demo on unchanged /repo: FAILS (unexpected)"
+  T=$(mktemp -d /root/scratch/demoXXXX); cp -r $O/demo/. $T/; sed -i "s#\(filippo.io/age => \).*#\1/repo#" $T/go.mod; cp /repo/go.sum $T/go.sum 2>/dev/null
+  ( cd $T && export AGE_SRC=/repo && if ls *_test.go >/dev/null 2>&1; then go test -count=1 ./...; else go run .; fi ) > $D/demo_without.log 2>&1 && res "demo on unchanged /repo: passes (expected)" || res "demo on unchanged /repo: FAILS (unexpected)"
   rm -rf $T
 else
   res "demo: no go.mod (see RUN.md)"
